@@ -93,6 +93,47 @@ func VerifC15Drop() {
 	}
 }
 
+// VerifC15DropWAL: a WAL-mode database with a committed but not yet
+// checkpointed transaction is dropped; snapshots for late joiners must still be
+// served (the tombstone, and after recreation the new image).
+func VerifC15DropWAL() {
+	ctx := context.Background()
+	w, m := verifC03Setup(1 + rt.Choose("n0", 2))
+	db := w.db
+	m.verifStartWAL(ctx, w, true)
+	m.verifC03Tx(ctx, w, 1, true)
+	if !m.verifC03Release(ctx, w, "c15.wal.tx") {
+		rt.Fail("harness: WAL transaction not captured")
+	}
+	if rt.Choose("checkpoint.first", 2) == 1 {
+		rt.Check(db.Checkpoint(ctx) == nil, "checkpoint before the drop")
+	}
+	rt.Check(db.Drop(ctx) == nil, "Drop")
+	pos1 := db.Pos()
+	rt.Check(pos1.TXID == 43 && pos1.PostApplyChecksum == ltx.ChecksumFlag, "drop advances by one with the empty checksum")
+	// a replica joining now needs a snapshot of the dropped database
+	var buf bytes.Buffer
+	hdr, trl, err := db.WriteSnapshotTo(ctx, &buf)
+	rt.Check(err == nil, "a snapshot of a dropped database can be served to a late joiner")
+	rt.Check(hdr.Commit == 0 && hdr.MaxTXID == 43 && trl.PostApplyChecksum == ltx.ChecksumFlag, "the snapshot is the tombstone at the drop position")
+	// recreate and commit; late joiners get the new image
+	db2, f, err := w.store.CreateDB("db")
+	rt.Check(err == nil && db2 == db, "recreate")
+	jf, err := db.CreateJournal()
+	rt.Check(err == nil, "CreateJournal")
+	rt.Check(db.WriteJournalAt(ctx, jf, verifJournalHeader(0, 1, 0), 0, 1) == nil, "journal header")
+	p1 := rt.Bytes("recreated", verifP)
+	verifHeaderPage(p1, 1, false)
+	rt.Check(db.WriteDatabaseAt(ctx, f, p1, 0, 1) == nil, "page write")
+	rt.Check(db.RemoveJournal(ctx) == nil, "commit")
+	buf.Reset()
+	hdr, trl, err = db.WriteSnapshotTo(ctx, &buf)
+	rt.Check(err == nil, "a snapshot of the recreated database can be served")
+	rt.Check(hdr.Commit == 1 && hdr.MaxTXID == 44 && trl.PostApplyChecksum == verifSpecChecksum([][]byte{p1}), "the snapshot is the recreated image at its position")
+	rt.Check(len(w.exits) == 0, "no fatal exit")
+	rt.Reach("c15.dropwal")
+}
+
 // VerifC15ReplicaDrop: a replica applies the tombstone.
 func VerifC15ReplicaDrop() {
 	ctx := context.Background()
